@@ -1,6 +1,7 @@
 package main
 
 import (
+	"go/token"
 	"fmt"
 	"go/types"
 	"sort"
@@ -487,6 +488,86 @@ func runC19(r *Run) {
 		}
 	}
 	r.Floor("R5", "import loops with store writers", nImpLoops, 4)
+	// R6: the imported document is stored as it is
+	r.Rule("R6", "FLOW.import-unmodified: InitGenesis (and the ExportGenesis of the same module) never overwrites a field of the GenesisState it was handed or of an element copied out of it (a Store into a field of the genesis parameter, or of a local whose value derives from it) — what is written to the stores is the document's own data, so export→import→export is the identity on the document; normalising, trimming or defaulting an element on import changes the re-exported state")
+	nInitFns := 0
+	for _, gm := range genModules {
+		for _, id := range []string{gm.Init, gm.Export} {
+			fn0, ok := P.FnOK(id)
+			if !ok {
+				continue
+			}
+			isInit := id == gm.Init
+			if !isInit {
+				continue // exports build a fresh document; overwriting its fields is how it is built
+			}
+			nInitFns++
+			// the genesis parameter
+			var gp *ssa.Parameter
+			for _, p := range fn0.Params {
+				if namedName(p.Type()) == "GenesisState" || (namedName(deref(p.Type())) == "GenesisState") {
+					gp = p
+				}
+			}
+			if gp == nil {
+				r.Bad("R6", "x/"+gm.Name+"#genesis-parameter", P.Pos(fnPos(fn0)), "InitGenesis has no GenesisState parameter")
+				continue
+			}
+			bad, tabled := 0, 0
+			perField := map[string]int{}
+			for _, fn := range withAnon(fn0) {
+				eachInstr(fn, func(in ssa.Instruction) {
+					st, ok := in.(*ssa.Store)
+					if !ok {
+						return
+					}
+					// only partial overwrites: the address is a field / element of something
+					switch st.Addr.(type) {
+					case *ssa.FieldAddr, *ssa.IndexAddr:
+					default:
+						return
+					}
+					root := addrRoot(st.Addr)
+					derives := false
+					switch x := root.(type) {
+					case *ssa.Parameter:
+						derives = x == gp
+					case *ssa.Alloc:
+						// a local copy of the document or of one of its elements: some whole-value write into it is a pure
+						// projection (load / field / element / range value) of the genesis parameter — not a computed value
+						for _, wv := range allocWriters(x) {
+							if wv != st.Val && isProjectionOf(wv, gp, 0) {
+								derives = true
+							}
+						}
+					case *ssa.UnOp:
+						derives = isProjectionOf(x, gp, 0)
+					}
+					if !derives {
+						return
+					}
+					sn, f, _ := fieldOfAddr(st.Addr)
+					if why, ok := importRewriteExceptions["x/"+gm.Name+"#"+sn+"."+f]; ok {
+						r.OK("R6", fmt.Sprintf("x/%s#%s/overwrites-%s.%s", gm.Name, fnID(fn), sn, f), P.Pos(instrPos(in)), "tabled: "+why)
+						tabled++
+						return
+					}
+					bad++
+					perField[sn+"."+f]++
+					sfx := ""
+					if perField[sn+"."+f] > 1 {
+						sfx = fmt.Sprintf("-%d", perField[sn+"."+f])
+					}
+					r.Bad("R6", fmt.Sprintf("x/%s#%s/overwrites-%s.%s%s", gm.Name, fnID(fn), sn, f, sfx), P.Pos(instrPos(in)), "InitGenesis overwrites "+sn+"."+f+" of the imported document (or of an element copied out of it) before storing it: the stored state is not what was exported, so a second export differs and queries answer differently on the re-imported chain")
+				})
+			}
+			_ = tabled
+			if bad == 0 {
+				r.OK("R6", "x/"+gm.Name+"#import-unmodified", P.Pos(fnPos(fn0)), "no field of the imported document is overwritten")
+			}
+		}
+	}
+	r.Floor("R6", "InitGenesis functions examined", nInitFns, 7)
 
 	// evm export completeness: every exported account carries its code and storage
 	if ex, ok := P.FnOK("x/evm.ExportGenesis"); ok {
@@ -606,4 +687,62 @@ func innermostLoopExcluding(h *ssa.BasicBlock) *ssa.BasicBlock {
 		}
 	}
 	return best
+}
+
+// importRewriteExceptions: writes into the imported document that cannot change the stored state (one reason each).
+var importRewriteExceptions = map[string]string{
+	"x/ucdao#GenesisState.Balances": "SanitizeGenesisBalances only reorders the list (sort by address); the ledger is a keyed store, so the order in which balances are set is immaterial and the export iterates in key order anyway",
+	"x/epochs#EpochInfo.StartTime":  "defaults an unset (zero) start time to the block time, only on the zero edge; a document exported from a chain carries the defaulted value, so a round trip does not pass that edge",
+}
+
+// isProjectionOf: v is obtained from root only by loads, field / element selection, range extraction and phis
+// (a copy of a part of root), not by computation.
+func isProjectionOf(v ssa.Value, root ssa.Value, depth int) bool {
+	if depth > 12 {
+		return false
+	}
+	if v == root {
+		return true
+	}
+	switch x := v.(type) {
+	case *ssa.UnOp:
+		if x.Op == token.MUL {
+			if al, ok := x.X.(*ssa.Alloc); ok {
+				for _, wv := range allocWriters(al) {
+					if isProjectionOf(wv, root, depth+1) {
+						return true
+					}
+				}
+				return false
+			}
+			return isProjectionOf(x.X, root, depth+1)
+		}
+	case *ssa.FieldAddr:
+		return isProjectionOf(x.X, root, depth+1)
+	case *ssa.Field:
+		return isProjectionOf(x.X, root, depth+1)
+	case *ssa.IndexAddr:
+		return isProjectionOf(x.X, root, depth+1)
+	case *ssa.Index:
+		return isProjectionOf(x.X, root, depth+1)
+	case *ssa.Extract:
+		return isProjectionOf(x.Tuple, root, depth+1)
+	case *ssa.Next:
+		return isProjectionOf(x.Iter, root, depth+1)
+	case *ssa.Range:
+		return isProjectionOf(x.X, root, depth+1)
+	case *ssa.Phi:
+		for _, e := range x.Edges {
+			if isProjectionOf(e, root, depth+1) {
+				return true
+			}
+		}
+	case *ssa.Alloc:
+		for _, wv := range allocWriters(x) {
+			if isProjectionOf(wv, root, depth+1) {
+				return true
+			}
+		}
+	}
+	return false
 }
